@@ -75,7 +75,7 @@ def cases(tier, seed):
         yield {"d": "RMB", "n": n, "sp": "hex"}
     # no-byte directives
     for txt in ("ZQ EQU 5", "ZQ EQU $1234", " ORG $3003", " SETDP 0", " SETDP $30", " NAM PROG", " NAM prog12345", " END", " END LB",
-                " END $3000", "ZQ EQU -1"):
+                " END $3000", "ZQ EQU -1", " END LB+2", " END 2+LB", " END LB-1", " END EQ5+1", "ZQ EQU LB", " SETDP EQ5", " NAM LB"):
         yield {"d": "NONE", "line": txt}
     yield {"d": "INCLUDE"}
 
